@@ -160,6 +160,15 @@ std::string run(const Args& a) {
 		return "unusable-source";
 	if (refs.empty())
 		return "no-reference-fields";
+	if (a[1].rfind("synth:", 0) == 0) {
+		// the property is about an *otherwise valid* file: a generated instance whose uncorrupted form already fails a stage
+		// (arbitrary counts can be inconsistent with each other) is not a subject
+		for (int s = 0; s < 4; ++s) {
+			std::string r = stage(bytes, s);
+			if (r.rfind("ok:", 0) != 0)
+				return "unusable-source baseline stage " + std::to_string(s) + ": " + r;
+		}
+	}
 	static const char* KINDS[] = {"empty", "count", "beyond", "self", "ancestor", "inrange", "huge"};
 	std::vector<std::pair<size_t, std::string>> plan;
 	if (a[2] == "at") {
